@@ -19,8 +19,6 @@ structure Live (c : Client) : Prop where
   succ : c.cur.success = c.cur.subs
   nodup : c.accts.Nodup
   chaos : c.chaos = false
-  fo : c.failOpen = 0
-  fb : c.failBatch = 0
 
 /-- what a successful (possibly nested-reconnecting) step guarantees -/
 structure Post (c c' : Client) (extra : List Nat) : Prop where
@@ -28,6 +26,8 @@ structure Post (c c' : Client) (extra : List Nat) : Prop where
   perm : List.Perm c'.accts (c.accts ++ extra)
   tr : FaultsOnly c'.beh
   len : c'.beh.length ≤ c.beh.length
+  fo : c'.failOpen ≤ c.failOpen
+  fb : c'.failBatch ≤ c.failBatch
   str : c.streams.length ≤ c'.streams.length
 
 /-- what a step aborted by a shutdown notice guarantees: the map still knows every account (the re-connect that
@@ -36,15 +36,30 @@ structure Aborted (c c' : Client) (extra : List Nat) : Prop where
   nodup : c'.accts.Nodup
   perm : List.Perm c'.accts (c.accts ++ extra)
   chaos : c'.chaos = false
-  fo : c'.failOpen = 0
-  fb : c'.failBatch = 0
+  fo : c'.failOpen ≤ c.failOpen
+  fb : c'.failBatch ≤ c.failBatch
   tr : FaultsOnly c'.beh
   len : c'.beh.length < c.beh.length
   str : c.streams.length ≤ c'.streams.length
 
-/-- the two ways a handshake / a re-subscription loop can end inside the fault model -/
+/-- what a step that failed because a stream open or a pending-batch check failed guarantees: the map still knows every
+account, and one of the scripted failures was consumed -/
+structure Failed (c c' : Client) (extra : List Nat) : Prop where
+  nodup : c'.accts.Nodup
+  perm : List.Perm c'.accts (c.accts ++ extra)
+  chaos : c'.chaos = false
+  fo : c'.failOpen ≤ c.failOpen
+  fb : c'.failBatch ≤ c.failBatch
+  used : c'.failOpen + c'.failBatch < c.failOpen + c.failBatch
+  tr : FaultsOnly c'.beh
+  len : c'.beh.length ≤ c.beh.length
+  str : c.streams.length ≤ c'.streams.length
+
+def IsConnFail (r : HsRes) : Prop := r = .errConnect ∨ r = .errBatch
+
+/-- the three ways a handshake / a re-subscription loop can end inside the fault model -/
 def Outcome (c c' : Client) (r : HsRes) (extra : List Nat) : Prop :=
-  (r = .ok ∧ Post c c' extra) ∨ (r = .errShutdown ∧ Aborted c c' extra)
+  (r = .ok ∧ Post c c' extra) ∨ (r = .errShutdown ∧ Aborted c c' extra) ∨ (IsConnFail r ∧ Failed c c' extra)
 
 abbrev hsF (pick : List Nat → List Nat) (n : Nat) := hsLevel Variant.fixed pick n
 
@@ -88,7 +103,7 @@ theorem loop_of_P (pick : List Nat → List Nat) (n : Nat) (hP : PHs pick n) :
   induction ord with
   | nil =>
     intro c hl _ _ ht _
-    exact ⟨c, .ok, rfl, Or.inl ⟨rfl, ⟨hl, by simp, ht, le_refl _, le_refl _⟩⟩⟩
+    exact ⟨c, .ok, rfl, Or.inl ⟨rfl, ⟨hl, by simp, ht, le_refl _, le_refl _, le_refl _, le_refl _⟩⟩⟩
   | cons a rest ih =>
     intro c hl hnd hdis ht hlen
     have hnd' := List.nodup_cons.mp hnd
@@ -105,96 +120,156 @@ theorem loop_of_P (pick : List Nat → List Nat) (n : Nat) (hP : PHs pick n) :
       intro l p2 p1
       have : List.Perm (c1.accts ++ rest) ((c.accts ++ [a]) ++ rest) := List.Perm.append_right _ p1
       exact (p2.trans this).trans (by simp)
-    rcases o1 with ⟨rfl, p1⟩ | ⟨rfl, a1⟩
+    -- the loop stops at this handshake: keepSubscriptions(rest), return the error
+    have stop : ∀ (nd : c1.accts.Nodup) (p : List.Perm c1.accts (c.accts ++ [a])),
+        (keepAccts c1.accts rest).Nodup ∧ List.Perm (keepAccts c1.accts rest) (c.accts ++ a :: rest) := by
+      intro nd p
+      have hk : keepAccts c1.accts rest = c1.accts ++ rest := by
+        unfold keepAccts; rw [filter_not_contains_self (hdis1 p)]
+      rw [hk]
+      exact ⟨List.nodup_append.mpr ⟨nd, hnd'.2, by intro x hx y hy e; subst e; exact hdis1 p x hy hx⟩,
+        hcomp _ (List.Perm.refl _) p⟩
+    rcases o1 with ⟨rfl, p1⟩ | ⟨rfl, a1⟩ | ⟨hr, f1⟩
     · obtain ⟨c2, r2, h2, o2⟩ := ih c1 p1.live hnd'.2 (hdis1 p1.perm) p1.tr (le_trans p1.len hlen)
       refine ⟨c2, r2, by simp only [Client.resubLoop, h1]; exact h2, ?_⟩
-      rcases o2 with ⟨rfl, p2⟩ | ⟨rfl, a2⟩
-      · exact Or.inl ⟨rfl, ⟨p2.live, hcomp _ p2.perm p1.perm, p2.tr, le_trans p2.len p1.len, le_trans p1.str p2.str⟩⟩
-      · exact Or.inr ⟨rfl, ⟨a2.nodup, hcomp _ a2.perm p1.perm, a2.chaos, a2.fo, a2.fb, a2.tr,
-          lt_of_lt_of_le a2.len p1.len, le_trans p1.str a2.str⟩⟩
-    · -- the notice hit this handshake: keepSubscriptions(rest), return the error
-      have hk : keepAccts c1.accts rest = c1.accts ++ rest := by
-        unfold keepAccts; rw [filter_not_contains_self (hdis1 a1.perm)]
-      refine ⟨{ c1 with accts := keepAccts c1.accts rest }, .errShutdown,
-        by simp [Client.resubLoop, h1, Variant.fixed], Or.inr ⟨rfl, ⟨?_, ?_, a1.chaos, a1.fo, a1.fb, a1.tr, a1.len, a1.str⟩⟩⟩
-      · show (keepAccts c1.accts rest).Nodup
-        rw [hk]
-        exact List.nodup_append.mpr ⟨a1.nodup, hnd'.2, by
-          intro x hx y hy e; subst e; exact hdis1 a1.perm x hy hx⟩
-      · show List.Perm (keepAccts c1.accts rest) _
-        rw [hk]; exact hcomp _ (List.Perm.refl _) a1.perm
+      rcases o2 with ⟨rfl, p2⟩ | ⟨rfl, a2⟩ | ⟨hr2, f2⟩
+      · exact Or.inl ⟨rfl, ⟨p2.live, hcomp _ p2.perm p1.perm, p2.tr, le_trans p2.len p1.len, le_trans p2.fo p1.fo,
+          le_trans p2.fb p1.fb, le_trans p1.str p2.str⟩⟩
+      · exact Or.inr (Or.inl ⟨rfl, ⟨a2.nodup, hcomp _ a2.perm p1.perm, a2.chaos, le_trans a2.fo p1.fo,
+          le_trans a2.fb p1.fb, a2.tr, lt_of_lt_of_le a2.len p1.len, le_trans p1.str a2.str⟩⟩)
+      · exact Or.inr (Or.inr ⟨hr2, ⟨f2.nodup, hcomp _ f2.perm p1.perm, f2.chaos, le_trans f2.fo p1.fo,
+          le_trans f2.fb p1.fb, by have := f2.used; have := p1.fo; have := p1.fb; omega, f2.tr,
+          le_trans f2.len p1.len, le_trans p1.str f2.str⟩⟩)
+    · obtain ⟨k1, k2⟩ := stop a1.nodup a1.perm
+      exact ⟨{ c1 with accts := keepAccts c1.accts rest }, .errShutdown,
+        by simp [Client.resubLoop, h1, Variant.fixed],
+        Or.inr (Or.inl ⟨rfl, ⟨k1, k2, a1.chaos, a1.fo, a1.fb, a1.tr, a1.len, a1.str⟩⟩)⟩
+    · obtain ⟨k1, k2⟩ := stop f1.nodup f1.perm
+      refine ⟨{ c1 with accts := keepAccts c1.accts rest }, r1, ?_,
+        Or.inr (Or.inr ⟨hr, ⟨k1, k2, f1.chaos, f1.fo, f1.fb, f1.used, f1.tr, f1.len, f1.str⟩⟩)⟩
+      rcases hr with rfl | rfl <;> simp [Client.resubLoop, h1, Variant.fixed]
 
-/-- one `reconnect` attempt from any state: either everything is subscribed on a live new stream, or a shutdown
-notice aborted it with the whole map kept -/
+/-- how one `reconnect` attempt / a whole `HandleServerShutdown` can end, relative to the state it started from -/
+def ROutcome (c c1 : Client) (r : HsRes) (strict : Bool) : Prop :=
+  (r = .ok ∧ Live c1 ∧ List.Perm c1.accts c.accts ∧ FaultsOnly c1.beh ∧ c1.beh.length ≤ c.beh.length ∧
+      c1.failOpen ≤ c.failOpen ∧ c1.failBatch ≤ c.failBatch ∧ c.streams.length < c1.streams.length) ∨
+  (strict = false ∧ r = .errShutdown ∧ c1.accts.Nodup ∧ List.Perm c1.accts c.accts ∧ c1.chaos = false ∧
+      c1.failOpen ≤ c.failOpen ∧ c1.failBatch ≤ c.failBatch ∧ FaultsOnly c1.beh ∧ c1.beh.length < c.beh.length ∧
+      c.streams.length ≤ c1.streams.length) ∨
+  (IsConnFail r ∧ c1.accts.Nodup ∧ List.Perm c1.accts c.accts ∧ c1.chaos = false ∧
+      c1.failOpen ≤ c.failOpen ∧ c1.failBatch ≤ c.failBatch ∧
+      c1.failOpen + c1.failBatch < c.failOpen + c.failBatch ∧ FaultsOnly c1.beh ∧ c1.beh.length ≤ c.beh.length ∧
+      c.streams.length ≤ c1.streams.length)
+
+/-- one `reconnect` attempt from any state: everything subscribed on a live new stream, or aborted by a shutdown
+notice with the whole map kept, or failed at the stream open / the pending-batch check with the whole map kept -/
 theorem once_of_P (pick : List Nat → List Nat) (hpick : ∀ l, List.Perm (pick l) l) (n : Nat) (hP : PHs pick n)
-    (c : Client) (hnd : c.accts.Nodup) (hch : c.chaos = false) (hfo : c.failOpen = 0) (hfb : c.failBatch = 0)
-    (ht : FaultsOnly c.beh) (hlen : c.beh.length ≤ n) :
-    ∃ c1 r, c.reconnectOnce Variant.fixed pick (hsF pick n) = (c1, r) ∧
-      ((r = .ok ∧ Live c1 ∧ List.Perm c1.accts c.accts ∧ FaultsOnly c1.beh ∧ c1.beh.length ≤ c.beh.length ∧
-          c.streams.length < c1.streams.length) ∨
-       (r = .errShutdown ∧ c1.accts.Nodup ∧ List.Perm c1.accts c.accts ∧ c1.chaos = false ∧ c1.failOpen = 0 ∧
-          c1.failBatch = 0 ∧ FaultsOnly c1.beh ∧ c1.beh.length < c.beh.length ∧ c.streams.length < c1.streams.length)) := by
-  obtain ⟨ha, hb, _, _, hc, hsl, _, _, hf, hfb'⟩ := closeStream_fields c
-  have hf0 : c.closeStream.failOpen = 0 := by rw [hf]; exact hfo
-  have hfb0 : c.closeStream.failBatch = 0 := by rw [hfb']; exact hfb
-  let c0 : Client := { c.closeStream.connectStream with accts := [] }
-  have hl0 : Live c0 := by
-    refine ⟨?_, ?_, ?_, ?_, ?_, ?_, ?_, ?_⟩ <;> simp [c0, Client.connectStream, Client.cur, hc, hch, hf0, hfb0]
-  have hbeh0 : c0.beh = c.beh := by simp [c0, Client.connectStream, hb, hf0]
-  have hstr0 : c0.streams.length = c.streams.length + 1 := by simp [c0, Client.connectStream, hf0, hsl]
-  have hord : (pick c.accts).Nodup := (hpick _).nodup_iff.mpr hnd
-  obtain ⟨c1, r, h, o⟩ := loop_of_P pick n hP (pick c.accts) c0 hl0 hord (by simp [c0])
-    (by rw [hbeh0]; exact ht) (by rw [hbeh0]; exact hlen)
-  have e : (c.closeStream.connectStream).accts = c.accts := by simp [Client.connectStream, ha, hf0]
-  have eo : ¬ ((!(c.closeStream.connectStream).isOpen) = true) := by simp [Client.connectStream, hf0]
-  refine ⟨c1, r, ?_, ?_⟩
-  · have eb : ¬ ((c.closeStream.connectStream.failBatch != 0) = true) := by
-      simp [Client.connectStream, hf0, hfb0]
-    unfold Client.reconnectOnce
-    dsimp only
-    rw [if_neg eo, if_neg eb, e]
-    exact h
-  · have pc : ∀ l : List Nat, List.Perm l (c0.accts ++ pick c.accts) → List.Perm l c.accts := by
-      intro l p
-      simp only [c0, List.nil_append] at p
-      exact p.trans (hpick _)
-    rcases o with ⟨rfl, p⟩ | ⟨rfl, a1⟩
-    · exact Or.inl ⟨rfl, p.live, pc _ p.perm, p.tr, by simpa [hbeh0] using p.len, by have := p.str; omega⟩
-    · exact Or.inr ⟨rfl, a1.nodup, pc _ a1.perm, a1.chaos, a1.fo, a1.fb, a1.tr, by simpa [hbeh0] using a1.len,
-        by have := a1.str; omega⟩
+    (c : Client) (hnd : c.accts.Nodup) (hch : c.chaos = false) (ht : FaultsOnly c.beh) (hlen : c.beh.length ≤ n) :
+    ∃ c1 r, c.reconnectOnce Variant.fixed pick (hsF pick n) = (c1, r) ∧ ROutcome c c1 r false := by
+  obtain ⟨ha, hb, _, _, hc, hsl, _, _, hf, hfb⟩ := closeStream_fields c
+  by_cases hfo0 : c.failOpen = 0
+  · have hf0 : c.closeStream.failOpen = 0 := by rw [hf]; exact hfo0
+    have eo : ¬ ((!(c.closeStream.connectStream).isOpen) = true) := by simp [Client.connectStream, hf0]
+    have e : (c.closeStream.connectStream).accts = c.accts := by simp [Client.connectStream, ha, hf0]
+    have ebeh : (c.closeStream.connectStream).beh = c.beh := by simp [Client.connectStream, hb, hf0]
+    have efb : (c.closeStream.connectStream).failBatch = c.failBatch := by simp [Client.connectStream, hfb, hf0]
+    have estr : (c.closeStream.connectStream).streams.length = c.streams.length + 1 := by
+      simp [Client.connectStream, hf0, hsl]
+    have ech : (c.closeStream.connectStream).chaos = false := by simp [Client.connectStream, hf0, hc, hch]
+    have efo : (c.closeStream.connectStream).failOpen = 0 := by simp [Client.connectStream, hf0]
+    by_cases hfb0 : c.failBatch = 0
+    · have eb : ¬ ((c.closeStream.connectStream.failBatch != 0) = true) := by simp [efb, hfb0]
+      let c0 : Client := { c.closeStream.connectStream with accts := [] }
+      have hl0 : Live c0 := by
+        refine ⟨?_, ?_, ?_, ?_, ?_, ?_⟩ <;> simp [c0, Client.connectStream, Client.cur, hc, hch, hf0]
+      have hord : (pick c.accts).Nodup := (hpick _).nodup_iff.mpr hnd
+      obtain ⟨c1, r, h, o⟩ := loop_of_P pick n hP (pick c.accts) c0 hl0 hord (by simp [c0])
+        (by show FaultsOnly (c.closeStream.connectStream).beh; rw [ebeh]; exact ht)
+        (by show (c.closeStream.connectStream).beh.length ≤ n; rw [ebeh]; exact hlen)
+      refine ⟨c1, r, ?_, ?_⟩
+      · unfold Client.reconnectOnce
+        dsimp only
+        rw [if_neg eo, if_neg eb, e]
+        exact h
+      · have pc : ∀ l : List Nat, List.Perm l (c0.accts ++ pick c.accts) → List.Perm l c.accts := by
+          intro l p
+          simp only [c0, List.nil_append] at p
+          exact p.trans (hpick _)
+        have b0 : c0.beh.length = c.beh.length := by show (c.closeStream.connectStream).beh.length = _; rw [ebeh]
+        have fo0 : c0.failOpen = 0 := efo
+        have fb0 : c0.failBatch = c.failBatch := efb
+        have s0 : c0.streams.length = c.streams.length + 1 := estr
+        rcases o with ⟨rfl, p⟩ | ⟨rfl, a1⟩ | ⟨hr, f1⟩
+        · exact Or.inl ⟨rfl, p.live, pc _ p.perm, p.tr, by have := p.len; omega, by have := p.fo; omega,
+            by have := p.fb; omega, by have := p.str; omega⟩
+        · exact Or.inr (Or.inl ⟨rfl, rfl, a1.nodup, pc _ a1.perm, a1.chaos, by have := a1.fo; omega,
+            by have := a1.fb; omega, a1.tr, by have := a1.len; omega, by have := a1.str; omega⟩)
+        · exact Or.inr (Or.inr ⟨hr, f1.nodup, pc _ f1.perm, f1.chaos, by have := f1.fo; omega,
+            by have := f1.fb; omega, by have := f1.used; omega, f1.tr, by have := f1.len; omega,
+            by have := f1.str; omega⟩)
+    · -- the pending-batch check on the new stream fails
+      have eb : (c.closeStream.connectStream.failBatch != 0) = true := by simp [efb, hfb0]
+      refine ⟨{ c.closeStream.connectStream with failBatch := c.closeStream.connectStream.failBatch - 1 }, .errBatch,
+        ?_, Or.inr (Or.inr ⟨Or.inr rfl, by rw [e]; exact hnd, by rw [e], ech, by simp [efo],
+          by simp only [efb]; omega, by simp only [efb, efo]; omega, by rw [ebeh]; exact ht, by rw [ebeh],
+          by rw [estr]; omega⟩)⟩
+      unfold Client.reconnectOnce
+      dsimp only
+      rw [if_neg eo, if_pos eb]
+  · -- opening the new stream fails although the Terms probe succeeded
+    have hfne : ¬ c.closeStream.failOpen = 0 := by rw [hf]; exact hfo0
+    have eo : (!(c.closeStream.connectStream).isOpen) = true := by simp [Client.connectStream, hfne]
+    refine ⟨c.closeStream.connectStream, .errConnect, ?_, Or.inr (Or.inr ⟨Or.inl rfl, ?_, ?_, ?_, ?_, ?_, ?_, ?_, ?_, ?_⟩)⟩
+    · unfold Client.reconnectOnce
+      dsimp only
+      rw [if_pos eo]
+    all_goals simp only [Client.connectStream, hfne, if_false]
+    · exact ha ▸ hnd
+    · rw [ha]
+    · rw [hc]; exact hch
+    · rw [hf]; omega
+    · rw [hfb]
+    · rw [hf, hfb]; omega
+    · rw [hb]; exact ht
+    · rw [hb]
+    · rw [hsl]
 
 /-- `HandleServerShutdown`, given the handshake statement at the same depth: whatever state the old stream is in, and
-however many shutdown notices make it start over, it ends with a live stream carrying every account of the map
-exactly once -/
+however many shutdown notices make it start over, it either ends with a live stream carrying every account of the map
+exactly once, or fails at a stream open / pending-batch check with the whole map kept -/
 theorem hss_of_P (pick : List Nat → List Nat) (hpick : ∀ l, List.Perm (pick l) l) (n : Nat) (hP : PHs pick n) :
-    ∀ (fuel : Nat) (c : Client), c.accts.Nodup → c.chaos = false → c.failOpen = 0 → c.failBatch = 0 →
-      FaultsOnly c.beh → c.beh.length ≤ n → c.beh.length ≤ fuel →
-      ∃ c', c.handleShutdown Variant.fixed pick (hsF pick n) fuel = (c', .ok) ∧ Live c' ∧
-        List.Perm c'.accts c.accts ∧ FaultsOnly c'.beh ∧ c'.beh.length ≤ c.beh.length ∧
-        c.streams.length < c'.streams.length := by
+    ∀ (fuel : Nat) (c : Client), c.accts.Nodup → c.chaos = false → FaultsOnly c.beh →
+      c.beh.length ≤ n → c.beh.length ≤ fuel →
+      ∃ c' r, c.handleShutdown Variant.fixed pick (hsF pick n) fuel = (c', r) ∧ ROutcome c c' r true := by
   intro fuel
   induction fuel with
   | zero =>
-    intro c hnd hch hfo hfb ht hlen hfu
-    obtain ⟨c1, r, honce, o⟩ := once_of_P pick hpick n hP c hnd hch hfo hfb ht hlen
-    rcases o with ⟨rfl, hl, hp, ht1, hl1, hs1⟩ | ⟨rfl, _, _, _, _, _, _, hl1, _⟩
-    · exact ⟨c1, by simp [Client.handleShutdown, honce], hl, hp, ht1, hl1, hs1⟩
+    intro c hnd hch ht hlen hfu
+    obtain ⟨c1, r, honce, o⟩ := once_of_P pick hpick n hP c hnd hch ht hlen
+    rcases o with ⟨rfl, h⟩ | ⟨_, rfl, _, _, _, _, _, _, hl1, _⟩ | ⟨hr, h⟩
+    · exact ⟨c1, .ok, by simp [Client.handleShutdown, honce], Or.inl ⟨rfl, h⟩⟩
     · omega
+    · refine ⟨c1, r, ?_, Or.inr (Or.inr ⟨hr, h⟩)⟩
+      rcases hr with rfl | rfl <;> simp [Client.handleShutdown, honce]
   | succ f ih =>
-    intro c hnd hch hfo hfb ht hlen hfu
-    obtain ⟨c1, r, honce, o⟩ := once_of_P pick hpick n hP c hnd hch hfo hfb ht hlen
-    rcases o with ⟨rfl, hl, hp, ht1, hl1, hs1⟩ | ⟨rfl, hnd1, hp1, hch1, hfo1, hfb1, ht1, hl1, hs1⟩
-    · exact ⟨c1, by simp [Client.handleShutdown, honce], hl, hp, ht1, hl1, hs1⟩
+    intro c hnd hch ht hlen hfu
+    obtain ⟨c1, r, honce, o⟩ := once_of_P pick hpick n hP c hnd hch ht hlen
+    rcases o with ⟨rfl, h⟩ | ⟨_, rfl, hnd1, hp1, hch1, hfo1, hfb1, ht1, hl1, hs1⟩ | ⟨hr, h⟩
+    · exact ⟨c1, .ok, by simp [Client.handleShutdown, honce], Or.inl ⟨rfl, h⟩⟩
     · -- the reader of the new stream closed it and marked the re-connect dirty: start over
       obtain ⟨ga, gb, _, _, gc, gsl, _, _, gf, gfb⟩ := closeStream_fields c1
-      obtain ⟨c', h, hl', hp', ht', hlen', hs'⟩ := ih c1.closeStream (by rw [ga]; exact hnd1) (by rw [gc]; exact hch1)
-        (by rw [gf]; exact hfo1) (by rw [gfb]; exact hfb1) (by rw [gb]; exact ht1) (by rw [gb]; omega) (by rw [gb]; omega)
-      refine ⟨c', ?_, hl', ?_, ht', ?_, ?_⟩
+      obtain ⟨c', r', h, o'⟩ := ih c1.closeStream (by rw [ga]; exact hnd1) (by rw [gc]; exact hch1)
+        (by rw [gb]; exact ht1) (by rw [gb]; omega) (by rw [gb]; omega)
+      refine ⟨c', r', ?_, ?_⟩
       · rw [Client.handleShutdown, honce]
         simpa [Variant.fixed] using h
-      · rw [ga] at hp'; exact hp'.trans hp1
-      · rw [gb] at hlen'; omega
-      · rw [gsl] at hs'; omega
+      · simp only [ROutcome, ga, gb, gf, gfb, gsl] at o'
+        rcases o' with ⟨rfl, hl', hp', ht', hlen', hfo', hfb', hs'⟩ | ⟨hf', _⟩ | ⟨hr', hnd', hp', hch', hfo', hfb', hu', ht', hlen', hs'⟩
+        · exact Or.inl ⟨rfl, hl', hp'.trans hp1, ht', by omega, by omega, by omega, by omega⟩
+        · exact absurd hf' (by simp)
+        · exact Or.inr (Or.inr ⟨hr', hnd', hp'.trans hp1, hch', by omega, by omega, by omega, ht', by omega, by omega⟩)
+    · refine ⟨c1, r, ?_, Or.inr (Or.inr ⟨hr, h⟩)⟩
+      rcases hr with rfl | rfl <;> simp [Client.handleShutdown, honce]
 
 theorem handlerLoop_ok (v : Variant) (hsd : Client → Client × HsRes) (fuel : Nat) (c c' : Client)
     (h : hsd c = (c', .ok)) :
@@ -236,7 +311,7 @@ theorem hs_ok_post (c : Client) (a : Nat) (hl : Live c) (ha : a ∉ c.accts) (ht
   have hp : List.Perm s.subs c.accts := by simpa [Client.cur, hs] using hl.perm
   have hsu : s.success = s.subs := by simpa [Client.cur, hs] using hl.succ
   have hal : s.alive = true := by simpa [Client.cur, hs] using hl.alive
-  refine ⟨⟨?_, ?_, ?_, ?_, ?_, ?_, ?_, ?_⟩, ?_, ?_, ?_, ?_⟩
+  refine ⟨⟨?_, ?_, ?_, ?_, ?_, ?_⟩, ?_, ?_, ?_, ?_, ?_, ?_⟩
   · simp [Client.setCur, hs, hl.isOpen]
   · simp [Client.setCur, hs, Client.cur, hal]
   · simp only [Client.setCur, hs, Client.cur, List.headD_cons]; exact List.Perm.append_right _ hp
@@ -245,18 +320,19 @@ theorem hs_ok_post (c : Client) (a : Nat) (hl : Live c) (ha : a ∉ c.accts) (ht
     exact List.nodup_append.mpr ⟨hl.nodup, by simp, by
       intro x hx y hy; simp at hy; subst hy; intro e; subst e; exact ha hx⟩
   · simp [Client.setCur, hs, hl.chaos]
-  · simp [Client.setCur, hs, hl.fo]
-  · simp [Client.setCur, hs, hl.fb]
   · simp [Client.setCur, hs]
   · simp only [Client.setCur, hs]
     intro b hb; exact ht b (List.mem_of_mem_tail hb)
   · simp [Client.setCur, hs]
   · simp [Client.setCur, hs]
+  · simp [Client.setCur, hs]
+  · simp [Client.setCur, hs]
 
 /-- **every handshake of the repaired client ends inside the fault model as `Outcome` says**, at any recursion depth
 that covers the script: a transport error at any point of the handshake is absorbed by an inline reconnect that
-re-subscribes the whole map (and itself starts over on shutdown notices); a shutdown notice on the handshake itself
-aborts it with the account kept in the map -/
+re-subscribes the whole map (and itself starts over on shutdown notices) – unless that reconnect fails at a stream
+open / pending-batch check, which is passed on with the map kept; a shutdown notice on the handshake itself aborts it
+with the account kept in the map -/
 theorem PHs_all (pick : List Nat → List Nat) (hpick : ∀ l, List.Perm (pick l) l) : ∀ n, PHs pick n := by
   intro n
   induction n with
@@ -274,22 +350,24 @@ theorem PHs_all (pick : List Nat → List Nat) (hpick : ∀ l, List.Perm (pick l
         intro x hx y hy; simp at hy; subst hy; intro e; subst e; exact ha hx⟩
     -- the state handed to the inline reconnect in the three transport-error cases
     have inl : ∀ c2 : Client, c2.accts = c.accts ++ [a] → c2.beh = c.beh.tail → c2.chaos = false →
-        c2.failOpen = 0 → c2.failBatch = 0 → c.streams.length ≤ c2.streams.length → c.beh ≠ [] →
-        ∃ c', c2.handleShutdown Variant.fixed pick (hsF pick m) (m + 1) = (c', .ok) ∧ Post c c' [a] := by
+        c2.failOpen = c.failOpen → c2.failBatch = c.failBatch → c.streams.length ≤ c2.streams.length → c.beh ≠ [] →
+        ∃ c' r, c2.handleShutdown Variant.fixed pick (hsF pick m) (m + 1) = (c', r) ∧ Outcome c c' r [a] := by
       intro c2 h1 h2 h3 hf2 hfb2 h4 hne
       have hnd2 : c2.accts.Nodup := by rw [h1]; exact hnd1
       have ht2 : FaultsOnly c2.beh := by
         rw [h2]; intro b hb; exact ht b (List.mem_of_mem_tail hb)
-      have hlen2 : c2.beh.length ≤ m := by
-        rw [h2]
+      have hlt : c.beh.tail.length < c.beh.length := by
         cases hb : c.beh with
         | nil => exact absurd hb hne
-        | cons b t => simp [hb] at hlen ⊢; omega
-      obtain ⟨c', h, hl', hp', ht', hlen', hstr'⟩ :=
-        hss_of_P pick hpick m ih (m + 1) c2 hnd2 h3 hf2 hfb2 ht2 hlen2 (by omega)
-      refine ⟨c', h, ⟨hl', by rw [← h1]; exact hp', ht', ?_, by omega⟩⟩
-      rw [h2] at hlen'
-      exact le_trans hlen' (by simp)
+        | cons b t => simp
+      have hlen2 : c2.beh.length ≤ m := by rw [h2]; omega
+      obtain ⟨c', r, h, o⟩ := hss_of_P pick hpick m ih (m + 1) c2 hnd2 h3 ht2 hlen2 (by omega)
+      refine ⟨c', r, h, ?_⟩
+      simp only [ROutcome, h1, h2, hf2, hfb2] at o
+      rcases o with ⟨rfl, hl', hp', ht', hlen', hfo', hfb', hs'⟩ | ⟨hf, _⟩ | ⟨hr, hnd', hp', hch', hfo', hfb', hu', ht', hlen', hs'⟩
+      · exact Or.inl ⟨rfl, ⟨hl', hp', ht', by omega, hfo', hfb', by omega⟩⟩
+      · exact absurd hf (by simp)
+      · exact Or.inr (Or.inr ⟨hr, ⟨hnd', hp', hch', hfo', hfb', hu', ht', by omega, by omega⟩⟩)
     simp only [hsF, hsLevel]
     rw [hs_unfold _ _ c a hl ha]
     cases hb : c.beh with
@@ -305,35 +383,71 @@ theorem PHs_all (pick : List Nat → List Nat) (hpick : ∀ l, List.Perm (pick l
       · exact ⟨_, .ok, rfl, Or.inl ⟨rfl, by simpa [hb] using hs_ok_post c a hl ha ht⟩⟩
       · obtain ⟨h1, h2, _, _, h5, h6, _, _, _, h10, h11⟩ :=
           setCur_fields ({ c with accts := c.accts ++ [a], beh := t } : Client) (fun s => { s with alive := false })
-        obtain ⟨c', h, p⟩ := inl (({ c with accts := c.accts ++ [a], beh := t } : Client).failStream)
+        obtain ⟨c', r, h, o⟩ := inl (({ c with accts := c.accts ++ [a], beh := t } : Client).failStream)
           h1 (by rw [Client.failStream, h2, hb]; rfl) (by rw [Client.failStream, h5]; exact hl.chaos)
-          (by rw [Client.failStream, h10]; exact hl.fo) (by rw [Client.failStream, h11]; exact hl.fb)
-          (by rw [Client.failStream, h6]) hne
-        exact ⟨c', .ok, by simpa [Variant.fixed, hsF] using h, Or.inl ⟨rfl, p⟩⟩
+          (by rw [Client.failStream, h10]) (by rw [Client.failStream, h11]) (by rw [Client.failStream, h6]) hne
+        exact ⟨c', r, by simpa [Variant.fixed, hsF] using h, o⟩
       · obtain ⟨h1, h2, _, _, h5, h6, _, _, _, h10, h11⟩ :=
           setCur_fields ({ c with accts := c.accts ++ [a], beh := t } : Client)
             (fun s => { s with subs := s.subs ++ [a], alive := false })
-        obtain ⟨c', h, p⟩ := inl (({ c with accts := c.accts ++ [a], beh := t } : Client).setCur
+        obtain ⟨c', r, h, o⟩ := inl (({ c with accts := c.accts ++ [a], beh := t } : Client).setCur
             fun s => { s with subs := s.subs ++ [a], alive := false })
-          h1 (by rw [h2, hb]; rfl) (by rw [h5]; exact hl.chaos) (by rw [h10]; exact hl.fo)
-          (by rw [h11]; exact hl.fb) (by rw [h6]) hne
-        exact ⟨c', .ok, by simpa [Variant.fixed, hsF] using h, Or.inl ⟨rfl, p⟩⟩
+          h1 (by rw [h2, hb]; rfl) (by rw [h5]; exact hl.chaos) (by rw [h10]) (by rw [h11]) (by rw [h6]) hne
+        exact ⟨c', r, by simpa [Variant.fixed, hsF] using h, o⟩
       · obtain ⟨h1, h2, _, _, h5, h6, _, _, _, h10, h11⟩ :=
           setCur_fields ({ c with accts := c.accts ++ [a], beh := t } : Client) (fun s => { s with alive := false })
-        obtain ⟨c', h, p⟩ := inl (({ c with accts := c.accts ++ [a], beh := t } : Client).failStream)
+        obtain ⟨c', r, h, o⟩ := inl (({ c with accts := c.accts ++ [a], beh := t } : Client).failStream)
           h1 (by rw [Client.failStream, h2, hb]; rfl) (by rw [Client.failStream, h5]; exact hl.chaos)
-          (by rw [Client.failStream, h10]; exact hl.fo) (by rw [Client.failStream, h11]; exact hl.fb)
-          (by rw [Client.failStream, h6]) hne
-        exact ⟨c', .ok, by simpa [hsF] using h, Or.inl ⟨rfl, p⟩⟩
+          (by rw [Client.failStream, h10]) (by rw [Client.failStream, h11]) (by rw [Client.failStream, h6]) hne
+        exact ⟨c', r, by simpa [hsF] using h, o⟩
       · -- shutdown notice instead of the challenge
-        refine ⟨_, .errShutdown, rfl, Or.inr ⟨rfl, ⟨hnd1, List.Perm.refl _, hl.chaos, hl.fo, hl.fb, htt, ?_, le_refl _⟩⟩⟩
+        refine ⟨_, .errShutdown, rfl, Or.inr (Or.inl ⟨rfl, ⟨hnd1, List.Perm.refl _, hl.chaos, le_refl _, le_refl _,
+          htt, ?_, le_refl _⟩⟩)⟩
         simp [hb]
       · -- shutdown notice instead of the final answer
         obtain ⟨h1, h2, _, _, h5, h6, _, _, _, h10, h11⟩ :=
           setCur_fields ({ c with accts := c.accts ++ [a], beh := t } : Client)
             (fun s => { s with subs := s.subs ++ [a] })
-        refine ⟨_, .errShutdown, rfl, Or.inr ⟨rfl, ⟨by rw [h1]; exact hnd1, by rw [h1], by rw [h5]; exact hl.chaos,
-          by rw [h10]; exact hl.fo, by rw [h11]; exact hl.fb, by rw [h2]; exact htt, ?_, by rw [h6]⟩⟩⟩
+        refine ⟨_, .errShutdown, rfl, Or.inr (Or.inl ⟨rfl, ⟨by rw [h1]; exact hnd1, by rw [h1],
+          by rw [h5]; exact hl.chaos, by rw [h10], by rw [h11], by rw [h2]; exact htt, ?_, by rw [h6]⟩⟩)⟩
         rw [h2]; simp [hb]
+
+theorem handlerLoop_fail (hsd : Client → Client × HsRes) (fuel : Nat) (c c1 : Client) (r : HsRes)
+    (h : hsd c = (c1, r)) (hr : IsConnFail r) :
+    Client.handlerLoop Variant.fixed hsd (fuel + 1) c =
+      Client.handlerLoop Variant.fixed hsd fuel { c1 with handlerRes := c1.handlerRes ++ [ErrClass.other] } := by
+  rcases hr with rfl | rfl <;> simp [Client.handlerLoop, Client.handlerRound, h, Variant.fixed]
+
+/-- the main handler's retry loop (`serverHandler`): every failed round consumed a failing open / batch check, so with
+fuel for all of them it ends with every account subscribed exactly once on a live stream -/
+theorem handlerLoop_live (pick : List Nat → List Nat) (hpick : ∀ l, List.Perm (pick l) l) (D : Nat)
+    (hP : PHs pick D) :
+    ∀ (fuel : Nat) (c : Client), c.accts.Nodup → c.chaos = false → FaultsOnly c.beh → c.beh.length ≤ D →
+      c.failOpen + c.failBatch ≤ fuel →
+      ∃ c', Client.handlerLoop Variant.fixed
+          (fun c => c.handleShutdown Variant.fixed pick (hsLevel Variant.fixed pick D) D) fuel c = c' ∧
+        Live c' ∧ List.Perm c'.accts c.accts ∧ c.streams.length < c'.streams.length := by
+  intro fuel
+  induction fuel with
+  | zero =>
+    intro c hnd hch ht hlen hfu
+    obtain ⟨c1, r, h, o⟩ := hss_of_P pick hpick D hP D c hnd hch ht hlen hlen
+    simp only [hsF] at h
+    rcases o with ⟨rfl, hl, hp, _, _, _, _, hs⟩ | ⟨hf, _⟩ | ⟨_, _, _, _, _, _, hu, _⟩
+    · exact ⟨_, handlerLoop_ok _ _ _ c c1 h, ⟨hl.isOpen, hl.alive, hl.perm, hl.succ, hl.nodup, hl.chaos⟩, hp, hs⟩
+    · exact absurd hf (by simp)
+    · omega
+  | succ f ih =>
+    intro c hnd hch ht hlen hfu
+    obtain ⟨c1, r, h, o⟩ := hss_of_P pick hpick D hP D c hnd hch ht hlen hlen
+    simp only [hsF] at h
+    rcases o with ⟨rfl, hl, hp, _, _, _, _, hs⟩ | ⟨hf, _⟩ | ⟨hr, hnd1, hp1, hch1, hfo1, hfb1, hu, ht1, hl1, hs1⟩
+    · exact ⟨_, handlerLoop_ok _ _ _ c c1 h, ⟨hl.isOpen, hl.alive, hl.perm, hl.succ, hl.nodup, hl.chaos⟩, hp, hs⟩
+    · exact absurd hf (by simp)
+    · obtain ⟨c', h', hl', hp', hs'⟩ := ih { c1 with handlerRes := c1.handlerRes ++ [ErrClass.other] }
+        hnd1 hch1 ht1 (by show c1.beh.length ≤ D; omega) (by show c1.failOpen + c1.failBatch ≤ f; omega)
+      refine ⟨c', ?_, hl', hp'.trans hp1, by have : c1.streams.length < c'.streams.length := hs'; omega⟩
+      rw [handlerLoop_fail _ f c c1 r h hr]
+      exact h'
 
 end Pool.C18
